@@ -159,7 +159,7 @@ pub fn lmc(n: usize, bits: u32) -> BoxedStrategy<Vec<u64>> {
 /// overflow in some lanes); s inside [0, 1] (extrapolating from there overflows legitimately)
 fn lmc_huge(n: usize, bits: u32) -> BoxedStrategy<Vec<u64>> {
     let f = fmt(bits);
-    let emax = f.emax as f64;
+    let emax = f.emax_all as f64; // exponent of the first power of two beyond the finite range
     let lane = move || ((emax - 6.0)..(emax - 0.001), any::<bool>()).prop_map(|(e, neg)| 2f64.powf(e) * if neg { -1.0 } else { 1.0 });
     (proptest::collection::vec(lane(), n), proptest::collection::vec(lane(), n), prop_oneof![1 => Just(0.0f64), 1 => Just(1.0f64), 1 => Just(0.5f64), 3 => 0.0f64..1.0])
         .prop_map(move |(a, b, s)| {
